@@ -30,7 +30,7 @@ func effOrigin(o string) string {
 func (l sleaf) key() string { return effOrigin(l.origin) + "\x00" + strings.Join(l.strs(), "\x00") }
 
 var elemNames = []string{"a", "b", "c", "d", "interfaces", "state", "x", "counters", "in-octets", "café"}
-var keyVals = []string{"eth0", "eth1", "lo", "10.0.0.1", "7"}
+var keyVals = []string{"eth0", "eth1", "lo", "10.0.0.1", "7", "Ethernet1/2", "a b"}
 
 func genElem(r *vh.Rand, keyed bool) PElem {
 	e := PElem{Name: elemNames[r.Intn(len(elemNames))]}
@@ -75,6 +75,9 @@ func genSchema(r *vh.Rand, n int, origins []string, keyed, conflicts bool) []sle
 			}
 		}
 		d := 1 + r.Intn(3)
+		if r.Chance(1, 12) {
+			d = 22 + r.Intn(6) // longer than the capacity path.ToStrings reserves
+		}
 		for i := 0; i < d; i++ {
 			l.elems = append(l.elems, genElem(r, keyed))
 		}
@@ -346,6 +349,9 @@ func genStream(r *vh.Rand, schema []sleaf, o streamOpts, ts *int64) []*Noti {
 			}
 			p := pathOf(l.elems[cut:], pe)
 			p.Origin = pathOrigin
+			if r.Chance(1, 6) {
+				p.Target = "ignored-target" // only valid on a prefix: must be ignored on a path
+			}
 			n.Updates = append(n.Updates, Upd{Path: p, Val: v})
 		}
 		if r.Intn(100) < o.delPct && len(cands) > 0 {
@@ -376,6 +382,9 @@ func genStream(r *vh.Rand, schema []sleaf, o streamOpts, ts *int64) []*Noti {
 				}
 				p := pathOf(de, element)
 				p.Origin = pathOrigin
+				if r.Chance(1, 6) {
+					p.Target = "ignored-target"
+				}
 				n.Deletes = append(n.Deletes, p)
 			}
 		}
@@ -616,6 +625,10 @@ func genScenario(r *vh.Rand, family string, thorough bool) *Case {
 		subAt = total / 8 // the clients are streaming when the sessions fail
 	}
 	c.Ops = interleave(r, streams, names, subAt)
+	if (family == "basic" || family == "deletes" || family == "keys-element") && r.Chance(1, 2) {
+		c.Live = true
+		c.LiveDelayMS = r.Intn(40)
+	}
 	// clients: the whole target for every streaming target; plus variety
 	for _, nm := range names {
 		c.Clients = append(c.Clients, wholeTarget(nm))
